@@ -103,6 +103,10 @@ func (w *cliWorld) checkMatching(final bool, faulty bool) {
 						r.Fail("foreign-payload", "request %s: error code %d returned, the peer sent %s", q.Tag, q.GotCode, hit.Raw)
 						return
 					}
+					if q.GotData != "" && compactJSON(q.GotData) != fmt.Sprintf(`{"d":%q}`, hit.Payload) {
+						r.Fail("foreign-payload", "request %s: error data %s returned, the peer sent %s", q.Tag, q.GotData, hit.Raw)
+						return
+					}
 				}
 			case defectSent && (q.GotCode == -32600 || q.GotCode == -32700):
 				q.Answered = true // completed by the defective member, as an error: allowed
@@ -224,7 +228,7 @@ func scenarioC04(r *Run) {
 // C05
 
 func scenarioC05(r *Run) {
-	w := newCliWorld(r, cliCfg{Prop: "C05", MaxOps: 6, Faults: true, Hooks: true, NeverP: 0.15})
+	w := newCliWorld(r, cliCfg{Prop: "C05", MaxOps: 6, Faults: true, Hooks: r.Gen.Chance("hooks", 0.8), NeverP: 0.15})
 	g := r.Gen
 	// stop causes: Close (possibly two concurrent ones), peer EOF, Recv failure, malformed record, Send failure
 	if g.Chance("closes", 0.5) {
@@ -245,6 +249,7 @@ func scenarioC05(r *Run) {
 	if g.Chance("malformed", 0.15) {
 		w.malformedAt = g.Int("malformedat", 5)
 	}
+	w.cEnd.CloseErr = g.Chance("closeerr", 0.12) // a channel whose Close reports an error (it is closed all the same)
 	r.applyForce(w.cEnd)
 	defer func() { r.noteOps(w.cEnd) }()
 	w.cEnd.OnFault = func(kind int) {
@@ -313,6 +318,10 @@ func (w *cliWorld) lateOpsProbe() {
 			r.Fail("wrong-outcome", "%s invoked on a stopped client succeeded", op.Kind)
 			return
 		}
+	}
+	if !w.cli.IsStopped() {
+		r.Fail("wrong-outcome", "IsStopped reports false after Close has returned")
+		return
 	}
 	// Close on a client that has already stopped returns (and closes nothing again)
 	again := &closeAct{Invoke: -1, Return: -1}
@@ -405,7 +414,8 @@ func (w *cliWorld) checkC05(final bool) {
 			continue
 		}
 		if isCtxErr {
-			own := (op.CtxKind == 1 && op.Err == context.Canceled && ctxEnd <= op.Return) || (op.CtxKind == 2 && op.Err == context.DeadlineExceeded && ctxEnd <= op.Return)
+			cancelKind := op.CtxKind == 1 || op.CtxKind == 3 || op.CtxKind == 4
+			own := (cancelKind && op.Err == context.Canceled && ctxEnd <= op.Return) || (op.CtxKind == 2 && op.Err == context.DeadlineExceeded && ctxEnd <= op.Return)
 			if !own && !(op.Err == context.Canceled && stopped) {
 				r.Fail("wrong-outcome", "%s %d returned %v, but its context (kind %d) had not ended and the client had not stopped", op.Kind, op.Idx, op.Err, op.CtxKind)
 				return
@@ -441,7 +451,7 @@ func (w *cliWorld) checkC05(final bool) {
 				if stopped || sendFault {
 					continue
 				}
-				own := (op.CtxKind == 1 && q.GotCode == int(jrpc2.Cancelled)) || (op.CtxKind == 2 && q.GotCode == int(jrpc2.DeadlineExceeded))
+				own := ((op.CtxKind == 1 || op.CtxKind == 3 || op.CtxKind == 4) && q.GotCode == int(jrpc2.Cancelled)) || (op.CtxKind == 2 && q.GotCode == int(jrpc2.DeadlineExceeded))
 				if !(ctxEnd <= op.Return && own) {
 					r.Fail("wrong-outcome", "Batch %d: response for %s is the error %q (code %d) although the peer sent no such reply, the client had not stopped, and it is not the error of the batch's context (kind %d, ended=%v)", op.Idx, q.Tag, q.GotErr, q.GotCode, op.CtxKind, ctxEnd <= op.Return)
 					return
@@ -593,6 +603,13 @@ func scenarioC10Client(r *Run) {
 	if g.Chance("recvfault", 0.15) {
 		w.cEnd.FaultRecvAt[g.Int("recvfaultat", 8)] = fRecvErr
 	}
+	if g.Chance("sendfault", 0.2) {
+		w.cEnd.FaultSendAt[g.Int("sendfaultat", 8)] = []int{fSendErrLost, fSendErrAfter}[g.Int("sendfaultkind", 2)]
+	}
+	if g.Chance("peereof", 0.2) {
+		w.peerCloseAt = g.Int("peercloseat", 5) // the peer hangs up first
+	}
+	w.cEnd.CloseErr = g.Chance("closeerr", 0.1)
 	w.start()
 	if !w.drive(nil) {
 		return
